@@ -239,6 +239,25 @@ def adder(rep, body):
     return add
 
 
+def closure_bodies_in(facts, fc, e):
+    """bodies of closures passed as arguments to the calls occurring inside expression e"""
+    out = []
+    for s in E.walk(e):
+        if s[0] == "call":
+            t = fc.eb.terms.get(s[3])
+            if t is None:
+                continue
+            for a in t.args:
+                if a.place is None:
+                    continue
+                for d in fc.mir.whole_defs(a.place.local):
+                    if d[0] == "s" and d[3].rv is not None and d[3].rv.kind == "aggregate" and d[3].rv.agg.get("k") == "closure":
+                        b = facts.bodies.get(d[3].rv.agg["def"])
+                        if b is not None and b not in out:
+                            out.append(b)
+    return out
+
+
 def is_ok_unit(e):
     return e[0] == "adt" and path_endswith(e[1], "Result") and e[2] == "Ok"
 
